@@ -239,6 +239,13 @@ def r5_order_provenance(cx, mods):
                        and c.func.attr in ("sort", "reverse", "append", "insert", "pop", "remove", "extend", "clear")]
             if len(ds) == 1 and not touched and not _rebound_between(ds[0].value, r, p[0]):
                 v = ds[0].value
+            # toposort_flatten written out: acc = []; for level in toposort(graph): acc.extend(level); return acc
+            ext = [c for c in touched if c.func.attr == "extend"]
+            if len(ds) == 1 and U(ds[0].value) in ("[]", "list()") and len(touched) == 1 and len(ext) == 1:
+                lp = enclosing(ext[0], ast.For)
+                if lp is not None and isinstance(lp.iter, ast.Call) and call_attr(lp.iter) == "toposort" and lp.iter.args and U(lp.iter.args[0]) == p[0] \
+                        and [U(a) for a in ext[0].args] == [U(lp.target)] and not guard_texts(ext[0], stop=lp) and not [x for x in walk_body(lp.body) if isinstance(x, (ast.Break, ast.Continue, ast.Return))]:
+                    ok = True
         if isinstance(v, ast.Call) and call_attr(v) in ("toposort_flatten",) and v.args and U(v.args[0]) == p[0]:
             ok = True
         if isinstance(v, ast.Call) and call_name(v) == "list" and v.args and isinstance(v.args[0], ast.Call) and call_attr(v.args[0]) in ("toposort", "toposort_flatten"):
